@@ -441,7 +441,17 @@ func splitOutOfEnum(c SplitCase, thorough bool) bool { return sliceOutOfScope(c.
 
 func propSplit(c SplitCase, r *pbt.R) error {
 	in := els(c.S)
-	f := func(e el) bool { return c.P.eval(e.V) }
+	// The predicate also looks at the slice the helper was given: a helper that returns a new slice must not
+	// rearrange its argument, not even for the duration of the call (Reject works in place and is exempt).
+	var arg []el
+	disturbed := -1
+	var seen el
+	f := func(e el) bool {
+		if arg != nil && disturbed < 0 && e.I < len(arg) && arg[e.I] != e {
+			disturbed, seen = e.I, arg[e.I]
+		}
+		return c.P.eval(e.V)
+	}
 	var yes, no []el
 	for _, e := range in {
 		if c.P.eval(e.V) {
@@ -450,22 +460,45 @@ func propSplit(c SplitCase, r *pbt.R) error {
 			no = append(no, e)
 		}
 	}
-	ctx := func(name string) string { return fmt.Sprintf("%s(%v, %v)", name, in, c.P) }
+	ctx := func(name string) string { return fmt.Sprintf("%s(%s, %v)", name, short(in), c.P) }
+	watch := func() []el { arg = clone(in); disturbed = -1; return arg }
+	intact := func(name string) error {
+		defer func() { arg = nil }()
+		if disturbed >= 0 {
+			return fmt.Errorf("%s: while the predicate ran for element %d the argument slice held %v at that index (the helper rearranges its argument during the call)", ctx(name), disturbed, seen)
+		}
+		if !same(arg, in) {
+			return fmt.Errorf("%s left its argument as %s", ctx(name), short(arg))
+		}
+		return nil
+	}
 
-	if p := gogu.Partition(clone(in), f); !same(p[0], yes) || !same(p[1], no) {
+	if p := gogu.Partition(watch(), f); !same(p[0], yes) || !same(p[1], no) {
 		return fmt.Errorf("%s = %v, want [%v %v] (satisfying first, each part in input order)", ctx("Partition"), p, yes, no)
 	}
-	if got := gogu.Filter(clone(in), f); !same(got, yes) {
+	if err := intact("Partition"); err != nil {
+		return err
+	}
+	if got := gogu.Filter(watch(), f); !same(got, yes) {
 		return fmt.Errorf("%s = %v, want %v (the satisfying elements in input order)", ctx("Filter"), got, yes)
+	}
+	if err := intact("Filter"); err != nil {
+		return err
 	}
 	if got := gogu.Reject(clone(in), f); !same(got, no) {
 		return fmt.Errorf("%s = %v, want %v (the non-satisfying elements in input order)", ctx("Reject"), got, no)
 	}
-	if got := gogu.DropWhile(clone(in), f); !same(got, no) {
+	if got := gogu.DropWhile(watch(), f); !same(got, no) {
 		return fmt.Errorf("%s = %v, want %v (the non-satisfying elements in input order)", ctx("DropWhile"), got, no)
 	}
-	if got, want := gogu.DropRightWhile(clone(in), f), reversed(no); !same(got, want) {
+	if err := intact("DropWhile"); err != nil {
+		return err
+	}
+	if got, want := gogu.DropRightWhile(watch(), f), reversed(no); !same(got, want) {
 		return fmt.Errorf("%s = %v, want %v (the non-satisfying elements in reverse order)", ctx("DropRightWhile"), got, want)
+	}
+	if err := intact("DropRightWhile"); err != nil {
+		return err
 	}
 
 	if len(in) > 0 {
@@ -1375,12 +1408,28 @@ func propIter(c SliceCase, r *pbt.R) error {
 	limit := 4*n + 8 // bound on logged calls, so that a runaway iteration cannot exhaust memory
 	var log []int
 	var logMu sync.Mutex // an implementation that calls back from several goroutines must not corrupt the harness
+	var arg []el         // the slice handed to the helper that is running
+	disturbed := -1      // index at which a callback found the helper's argument rearranged during the call
+	var seen el          // what it found there
 	note := func(e el) {
 		logMu.Lock()
 		if len(log) < limit {
 			log = append(log, e.I)
 		}
+		// what the callback sees when it looks at the slice it is iterating over: the helper must not have rearranged it
+		if disturbed < 0 && e.I < len(arg) && arg[e.I] != e {
+			disturbed, seen = e.I, arg[e.I]
+		}
 		logMu.Unlock()
+	}
+	intact := func(name string) error {
+		if disturbed >= 0 {
+			return fmt.Errorf("%s over %s: while the callback was running for element %d the argument slice held %v at that index (the helper rearranges its argument during the call)", name, short(in), disturbed, seen)
+		}
+		if !same(arg, in) {
+			return fmt.Errorf("%s over %s left its argument as %s", name, short(in), short(arg))
+		}
+		return nil
 	}
 	up := make([]int, n)
 	for i := range up {
@@ -1400,8 +1449,12 @@ func propIter(c SliceCase, r *pbt.R) error {
 
 	// Map: pure transformation v -> 10*v+1 with a logging side effect.
 	log = nil
-	mapped := gogu.Map(clone(in), func(e el) int { note(e); return 10*e.V + 1 })
+	arg = clone(in)
+	mapped := gogu.Map(arg, func(e el) int { note(e); return 10*e.V + 1 })
 	if err := visits("Map", up); err != nil {
+		return err
+	}
+	if err := intact("Map"); err != nil {
 		return err
 	}
 	wantMapped := make([]int, n)
@@ -1413,21 +1466,33 @@ func propIter(c SliceCase, r *pbt.R) error {
 	}
 
 	log = nil
-	gogu.ForEach(clone(in), note)
+	arg = clone(in)
+	gogu.ForEach(arg, note)
 	if err := visits("ForEach", up); err != nil {
+		return err
+	}
+	if err := intact("ForEach"); err != nil {
 		return err
 	}
 
 	log = nil
-	gogu.ForEachRight(clone(in), note)
+	arg = clone(in)
+	gogu.ForEachRight(arg, note)
 	if err := visits("ForEachRight", down); err != nil {
+		return err
+	}
+	if err := intact("ForEachRight"); err != nil {
 		return err
 	}
 
 	// Reduce with an order-sensitive accumulator: acc -> 31*acc + v + 1, from 7.
 	log = nil
-	red := gogu.Reduce(clone(in), func(e el, acc int) int { note(e); return 31*acc + e.V + 1 }, 7)
+	arg = clone(in)
+	red := gogu.Reduce(arg, func(e el, acc int) int { note(e); return 31*acc + e.V + 1 }, 7)
 	if err := visits("Reduce", up); err != nil {
+		return err
+	}
+	if err := intact("Reduce"); err != nil {
 		return err
 	}
 	wantRed := 7
